@@ -905,6 +905,12 @@ class StringNode(LeafNode):
         super().__init__(string_like)
         self.quoted = quoted
 
+    def calculate_total_size(self):
+        if isinstance(self.object, int):
+            # a single element of a `bytes` object: one "character", like the one-character strings of a `str`
+            return 1
+        return super().calculate_total_size()
+
     def edits(self, node: TreeNode) -> Edit:
         if isinstance(node, StringNode):
             if self.object == node.object:
